@@ -63,6 +63,7 @@ def opKeys : COp → List Keys
   | .invoke _ kb ka _ _ => [kb, ka]
   | .advance _ => []
   | .corrupt _ ks => [ks]
+  | .block _ ks => [ks]
 
 /-- the encoding of key tuples into file names is injective on `U` -/
 def KeyEncodingInjective (U : List Keys) : Prop :=
@@ -71,7 +72,8 @@ def KeyEncodingInjective (U : List Keys) : Prop :=
 /-- simulation relation -/
 def Sim (U : List Keys) (c : CState) (s : SState) : Prop :=
   c.now = s.now ∧ c.counter = s.counter ∧
-  ∀ site, ∀ ks ∈ U, absF (lookupF c.files (cachePath site ks)) = lookupF s.store (site, ks)
+  (∀ site, ∀ ks ∈ U, absF (lookupF c.files (cachePath site ks)) = lookupF s.store (site, ks)) ∧
+  (∀ site, ∀ ks ∈ U, cachePath site ks ∈ c.blocked ↔ (site, ks) ∈ s.blocked)
 
 theorem path_eq_iff {U : List Keys} (hinj : KeyEncodingInjective U) {site site' : Str} {a b : Keys}
     (ha : a ∈ U) (hb : b ∈ U) : cachePath site a = cachePath site' b ↔ (site, a) = (site', b) := by
@@ -83,17 +85,37 @@ theorem path_eq_iff {U : List Keys} (hinj : KeyEncodingInjective U) {site site' 
 theorem sim_step (U : List Keys) (hinj : KeyEncodingInjective U) (c : CState) (s : SState) (op : COp)
     (hsim : Sim U c s) (hop : ∀ k ∈ opKeys op, k ∈ U) :
     (cacheStep c op).2 = (storeStep s op).2 ∧ Sim U (cacheStep c op).1 (storeStep s op).1 := by
-  obtain ⟨hnow, hcnt, hfiles⟩ := hsim
+  obtain ⟨hnow, hcnt, hfiles, hblk⟩ := hsim
   cases op with
   | advance dt =>
     simp only [cacheStep, storeStep]
-    exact ⟨trivial, by rw [hnow], hcnt, hfiles⟩
+    exact ⟨trivial, by rw [hnow], hcnt, hfiles, hblk⟩
+  | block site ks =>
+    have hks : ks ∈ U := hop ks (by simp [opKeys])
+    simp only [cacheStep, storeStep]
+    refine ⟨trivial, hnow, hcnt, ?_, ?_⟩
+    · intro site' ks' hks'
+      simp only
+      rw [lookupF_eraseF, lookupF_eraseF]
+      by_cases he : (site', ks') = (site, ks)
+      · have hp : cachePath site' ks' = cachePath site ks := (path_eq_iff hinj hks' hks).mpr he
+        simp [he, hp, absF]
+      · have hp : ¬ cachePath site' ks' = cachePath site ks := fun e => he ((path_eq_iff hinj hks' hks).mp e)
+        simp only [hp, he, if_false]; exact hfiles site' ks' hks'
+    · intro site' ks' hks'
+      simp only [List.mem_cons]
+      by_cases he : (site', ks') = (site, ks)
+      · have hp : cachePath site' ks' = cachePath site ks := (path_eq_iff hinj hks' hks).mpr he
+        simp [he, hp]
+      · have hp : ¬ cachePath site' ks' = cachePath site ks := fun e => he ((path_eq_iff hinj hks' hks).mp e)
+        have := hblk site' ks' hks'
+        simp [he, hp, this]
   | corrupt site ks =>
     have hks : ks ∈ U := hop ks (by simp [opKeys])
     simp only [cacheStep, storeStep]
     cases hl : lookupF c.files (cachePath site ks) with
     | none =>
-      refine ⟨rfl, hnow, hcnt, ?_⟩
+      refine ⟨rfl, hnow, hcnt, ?_, hblk⟩
       intro site' ks' hks'
       rw [lookupF_eraseF]
       by_cases he : (site', ks') = (site, ks)
@@ -105,7 +127,7 @@ theorem sim_step (U : List Keys) (hinj : KeyEncodingInjective U) (c : CState) (s
         rw [hl]; rfl
       · simp only [he, if_false]; exact hfiles site' ks' hks'
     | some f =>
-      refine ⟨rfl, hnow, hcnt, ?_⟩
+      refine ⟨rfl, hnow, hcnt, ?_, hblk⟩
       intro site' ks' hks'
       simp only
       rw [lookupF_updateF, lookupF_eraseF]
@@ -136,16 +158,22 @@ theorem sim_step (U : List Keys) (hinj : KeyEncodingInjective U) (c : CState) (s
           rw [← hrel, hnow]
     simp only [cacheStep, storeStep, hload]
     cases hhit : storeHit s site kb timeout with
-    | some r => exact ⟨rfl, hnow, hcnt, hfiles⟩
+    | some r => exact ⟨rfl, hnow, hcnt, hfiles, hblk⟩
     | none =>
       simp only
       cases msg with
       | true =>
         simp only [if_true]
-        exact ⟨by rw [hcnt], hnow, by simp [hcnt], hfiles⟩
+        exact ⟨by rw [hcnt], hnow, by simp [hcnt], hfiles, hblk⟩
       | false =>
         simp only [Bool.false_eq_true, if_false]
-        refine ⟨by rw [hcnt], hnow, by simp [hcnt], ?_⟩
+        by_cases hb : (site, ka) ∈ s.blocked
+        · have hb' : cachePath site ka ∈ c.blocked := (hblk site ka hka).mpr hb
+          simp only [hb, hb', if_true]
+          exact ⟨by rw [hcnt], hnow, by simp [hcnt], hfiles, hblk⟩
+        have hb' : ¬ cachePath site ka ∈ c.blocked := fun h => hb ((hblk site ka hka).mp h)
+        simp only [hb, hb', if_false]
+        refine ⟨by rw [hcnt], hnow, by simp [hcnt], ?_, hblk⟩
         intro site' ks' hks'
         simp only
         rw [lookupF_updateF, lookupF_updateF]
@@ -165,7 +193,7 @@ theorem C14_refines (U : List Keys) (hinj : KeyEncodingInjective U) (ops : List 
   suffices h : ∀ (c : CState) (s : SState) (acc : List COut), Sim U c s →
       (ops.foldl (fun (a : CState × List COut) op => let (s', o) := cacheStep a.1 op; (s', a.2 ++ [o])) (c, acc)).2 =
       (ops.foldl (fun (a : SState × List COut) op => let (s', o) := storeStep a.1 op; (s', a.2 ++ [o])) (s, acc)).2 by
-    exact h {} {} [] ⟨rfl, rfl, fun _ _ _ => rfl⟩
+    exact h {} {} [] ⟨rfl, rfl, fun _ _ _ => rfl, fun _ _ _ => by simp⟩
   induction ops with
   | nil => intro c s acc _; rfl
   | cons op ops ih =>
